@@ -31,16 +31,45 @@ def design_handle(out, configs, timeout=900):
 
 
 def count_calls(hist, cls):
+    """Fault-free run of the workload: total number of backend calls of the class and the
+    cumulative count after every API call (the boundaries between API calls)."""
     wd = core.workdir("count_calls")
     h = dict(hist, faults={"class": cls, "at": []}, id="count")
     sp = os.path.join(wd, "s.json")
     json.dump({"dict_path": os.path.join(core.DICTDIR, "A.names.json"), "histories": [h]}, open(sp, "w"))
     tp = os.path.join(wd, "t.ndjson")
     core.run_drive("hdrive", sp, tp)
-    last = None
+    bounds = [0]
     for ln in open(tp):
-        last = json.loads(ln)
-    return last["calls"]
+        e = json.loads(ln)
+        if "calls" in e:
+            bounds.append(e["calls"])
+    return bounds[-1], bounds
+
+
+def fault_positions(n, bounds, limit):
+    """Positions at which a fault is injected when not every position can be afforded: the first
+    and last backend calls of every API call (where its first table update and its final
+    directory-entry / header write sit), an even sample of each call's interior, and an even
+    sample of the whole run."""
+    ks = set()
+    for c0, c1 in zip(bounds, bounds[1:]):
+        if c1 <= c0:
+            continue
+        ks.update(range(c0 + 1, min(c1, c0 + 6) + 1))
+        ks.update(range(max(c0 + 1, c1 - 2), c1 + 1))
+        m = c1 - c0
+        if m > 9:
+            ks.update(c0 + 1 + int(i * m / 6) for i in range(1, 6))
+    ks = sorted(k for k in ks if 1 <= k <= n)
+    if len(ks) > limit:                    # keep the call starts, thin the rest evenly
+        step = len(ks) / limit
+        ks = sorted(set(ks[int(i * step)] for i in range(limit)))
+    rest = limit - len(ks)
+    if rest > 0:
+        step = n / rest
+        ks = sorted(set(ks) | set(min(n, int(i * step) + 1) for i in range(rest)))
+    return ks
 
 
 def check_c06(tier, seed):
@@ -73,12 +102,11 @@ def check_c06(tier, seed):
 def fault_histories(workloads, cls, tier, rng, label):
     hs = []
     for wi, w in enumerate(workloads):
-        n = count_calls(w, cls)
+        n, bounds = count_calls(w, cls)
         ks = list(range(1, n + 1))
-        limit = 260 if tier == "quick" else 100000
+        limit = 420 if tier == "quick" else 100000
         if len(ks) > limit:
-            step = len(ks) / limit
-            ks = sorted(set(int(i * step) + 1 for i in range(limit)))
+            ks = fault_positions(n, bounds, limit)
         for k in ks:
             hs.append(dict(w, id=f"{label}{wi}_k{k}", faults={"class": cls, "at": [k]}))
         if tier == "thorough":
@@ -98,7 +126,7 @@ def check_c12(tier, seed):
     hs = fault_histories(wl, "r", tier, rng, "ro")
     run_batch(out, "faults", "A", hs, spec="Trace_Handle", driver="hdrive")
     return finish(out, "fault_enumeration",
-                  "k-th backend read/seek call of a read-only workload fails (every k; thorough: sampled pairs); each call must return Err or exactly the fault-free result; "
+                  "k-th backend read/seek call of a read-only workload fails (quick: every k up to 420 calls, beyond that the first and last backend calls of every API call plus an even sample; thorough: every k and sampled pairs); each call must return Err or exactly the fault-free result; "
                   "after an error the handle is asked for its position and read again; distinct = distinct (workload, fault positions)",
                   H_ASSUME)
 
@@ -113,7 +141,7 @@ def check_c13(tier, seed):
     hs = fault_histories(wl, "w", tier, rng, "rw")
     run_batch(out, "faults", "A", hs, spec="Trace_Handle", driver="hdrive")
     return finish(out, "fault_enumeration",
-                  "k-th backend write/seek/flush call of a mutating workload fails (every k; thorough: sampled pairs): the API call during which it fires must return Err, nothing later may panic or hang, "
+                  "k-th backend write/seek/flush call of a mutating workload fails (quick: every k up to 420 calls, beyond that the first and last backend calls of every API call plus an even sample; thorough: every k and sampled pairs): the API call during which it fires must return Err, nothing later may panic or hang, "
                   "and an Ok flush must make every accepted byte readable through a fresh handle; the failed call is retried",
                   H_ASSUME)
 
